@@ -445,3 +445,111 @@ def spec_c06(tier, seed):
                    'rsocket.streams.stream_handler.StreamHandler.initial_request_n', 'rsocket.async_helpers.async_range'],
         stubs=['S1', 'S2', 'S3', 'S6', 'S7 SimTransport', 'S8', 'reactivex / Rx libraries executed under the tracer'],
     )
+
+
+_ALPHA_N = {'rr_req': 4, 'rs_req': 5, 'ch_req': 9, 'rr_resp': 4, 'rs_resp': 5, 'ch_resp': 8}
+_HIST_FUNCS = ['rsocket.rsocket_base.RSocketBase._receiver_listen', 'rsocket.rsocket_base.RSocketBase._handle_next_frame',
+               'rsocket.rsocket_base.RSocketBase._on_connection_closed', 'rsocket.rsocket_base.RSocketBase.finish_stream',
+               'rsocket.stream_control.StreamControl.handle_stream', 'rsocket.stream_control.StreamControl.stop_all_streams',
+               'rsocket.handlers.request_response_requester.RequestResponseRequester.frame_received',
+               'rsocket.handlers.request_response_requester.RequestResponseRequester.cancel',
+               'rsocket.handlers.request_response_responder.RequestResponseResponder.future_done',
+               'rsocket.handlers.request_response_responder.RequestResponseResponder.frame_received',
+               'rsocket.handlers.request_stream_requester.RequestStreamRequester.frame_received',
+               'rsocket.handlers.request_stream_requester.RequestStreamRequester.cancel',
+               'rsocket.handlers.request_stream_responder.RequestStreamResponder.frame_received',
+               'rsocket.handlers.request_stream_responder.StreamSubscriber.on_next',
+               'rsocket.handlers.request_cahnnel_common.RequestChannelCommon.frame_received',
+               'rsocket.handlers.request_cahnnel_common.RequestChannelCommon.mark_completed_and_finish',
+               'rsocket.handlers.request_cahnnel_common.RequestChannelCommon.cancel',
+               'rsocket.handlers.request_cahnnel_common.StreamSubscriber.on_next',
+               'rsocket.handlers.request_channel_requester.RequestChannelRequester.subscribe',
+               'rsocket.handlers.request_cahnnel_responder.RequestChannelResponder.frame_received',
+               'rsocket.streams.stream_handler.StreamHandler.initial_request_n', 'rsocket.frame_fragment_cache.FrameFragmentCache.append']
+
+
+def _hist_parts(k, plen, extra_cfgs, roles=None, base=None):
+    """partitions (role, first plen events) for the plain configuration + the listed extra configurations"""
+    out = []
+    for cfg in [dict(base or {})] + [dict(base or {}, **c) for c in extra_cfgs]:
+        for role in (roles or _ALPHA_N):
+            if cfg.get('lease') and not role.endswith('_req'):
+                continue
+            if cfg.get('req_follows') and role.endswith('_req'):
+                continue
+            na = _ALPHA_N[role] + (1 if cfg.get('lease') else 0)
+            prefixes = [[]]
+            # channel roles have the largest alphabets and three symbolic flags per PAYLOAD: one more fixed event
+            for _ in range(min(k, plen + (1 if role.startswith('ch_') else 0))):
+                prefixes = [p + [x] for p in prefixes for x in range(na)]
+            for p in prefixes:
+                d = dict(cfg)
+                d.update({'role': role, 'k': k, 'prefix': p})
+                out.append(d)
+    return out
+
+
+def _hist_spec(harness, tier, what, extra_cfgs, extra_conds=(), base=None):
+    q = tier == 'quick'
+    k = 3 if q else 4
+    parts = _hist_parts(k, 1 if q else 2, extra_cfgs if not q else extra_cfgs[:1], base=base)
+    if q and extra_cfgs:
+        # quick: the extra configurations with one event less
+        parts = _hist_parts(k, 1, [], base=base) + [dict(p, k=2) for p in _hist_parts(2, 1, extra_cfgs, base=base) if len(p) > 3 + len(base or {})]
+    return dict(
+        conds=[Cond(harness, 'c_history', parts=parts, timeout=600 if q else 1500)] + list(extra_conds),
+        explanation='one real endpoint in each of six roles (request-response / request-stream / request-channel, requester '
+                    'and responder) plus a bystander request, on the virtual loop; a history of k events chosen from the '
+                    "role's alphabet - inbound PAYLOAD (symbolic next/complete/follows flags) / ERROR / CANCEL / REQUEST_N of a "
+                    'protocol-legal peer, application cancel (optionally racing the next event) / emit / complete / fail / '
+                    'request(n), connection loss by EOF / transport error / close() - then a final connection loss. ' + what,
+        bounds=['k <= %d events per history (first %d fixed per process, rest symbolic), all six roles' % (k, 1 if q else 2),
+                'request-n 31-bit symbolic; configurations: plain%s' % ''.join(', ' + '+'.join(sorted(c)) for c in extra_cfgs),
+                'peer behaviour filtered by the legality automaton in harness/hist.py (what this library itself may emit)',
+                '%d partitions' % len(parts)],
+        outside=['histories longer than k, more than one interaction under test plus one bystander, illegal peers (C12)'],
+        functions=_HIST_FUNCS,
+        stubs=['S1', 'S2', 'S3', 'S6', 'S7 SimTransport', 'S8 recording application (publisher, subscriber, handler)'],
+        assumptions=['assume/guarantee: a peer that is itself this library emits only what C08 allows, so "every legal peer" covers a real peer endpoint'],
+    )
+
+
+def spec_c07(tier, seed):
+    return _hist_spec('c07_termination', tier,
+                      'Monitor: every subscriber the library drives sees on_subscribe . on_next* . at most one terminal, nothing '
+                      'after it; the request-response awaitable is resolved exactly once and never left pending.',
+                      [{'frag': True}])
+
+
+def spec_c08(tier, seed):
+    return _hist_spec('c08_wire_legality', tier,
+                      'Monitor: the role automaton of vlib/roles.py over every emitted frame, judged against the frames received '
+                      'before it (SETUP first and once, parity, streams begin with a request, allowed types per model and role, '
+                      'positive initial request-n incl. n <= 0 refused by the API, nothing after own COMPLETE/ERROR/CANCEL or after '
+                      'both directions completed, connection frames on stream 0 only).',
+                      [{'lease': True}, {'frag': True}])
+
+
+def spec_c09(tier, seed):
+    q = tier == 'quick'
+    srcs = ('gen', 'agen', 'rx4', 'rx4bp', 'rx3', 'rx3bp')
+    extra = [Cond('c09_cancel', 'c_cancel_library_sources', parts=[{'src': s, 'm': m} for s in srcs for m in ((2,) if q else (1, 2, 4))], timeout=400)]
+    s = _hist_spec('c09_cancel', tier,
+                   'Monitor: an application cancel produces exactly one CANCEL and nothing is delivered to the canceller afterwards '
+                   '(also when the cancel races the next inbound frame); a CANCEL from the peer cancels the application publisher / '
+                   'handler future and no PAYLOAD/ERROR follows; the bystander is served. A second condition does the producer side '
+                   'with each library stream source (CANCEL in the same read as the request, after j elements, after completion).',
+                   [{'lease': True}], extra_conds=extra)
+    s['functions'] = s['functions'] + ['rsocket.streams.stream_from_generator.StreamFromGenerator.cancel',
+                                       'rsocket.streams.stream_from_async_generator.StreamFromAsyncGenerator._cancel_generator',
+                                       'rsocket.reactivex.back_pressure_publisher.InternalBackPressurePublisher.cancel',
+                                       'rsocket.rx_support.back_pressure_publisher.InternalBackPressurePublisher.cancel']
+    return s
+
+
+def spec_c10(tier, seed):
+    return _hist_spec('c10_no_state', tier,
+                      'Monitor at quiescence: if the interaction has terminated by the protocol definition, no stream-table entry and no '
+                      'partial frame remain for it (also with a FOLLOWS fragment pending), a new request on the id is accepted, and both '
+                      'tables are empty once the bystander finished.',
+                      [{'frag': True}, {'req_follows': True}], base={'probe_reuse': True})
